@@ -194,7 +194,9 @@ func c05RunProxy(env *c05ProxyEnv, c c05ProxyCase) (out c05Out) {
 	w.solo = true
 	defer w.stop()
 	client := c05NewConn(w, c05Client, c.Client, cs, reply)
-	reg := *env.reg // a private copy: Proxy counts tunnels on it
+	var ep c05Epochs
+	w.onEpoch = func() { ep.roll(pre.sessions + 1) } // called from a Read of the relay: exactly this tunnel is open
+	reg := *env.reg                                  // a private copy: Proxy counts tunnels on it
 	if c.Header != "" {
 		reg.Flags = &pb.RegistrationFlags{ProxyHeader: proto.Bool(true)}
 		set["header:"+c.Header] = true
@@ -320,7 +322,14 @@ func c05RunProxy(env *c05ProxyEnv, c c05ProxyCase) (out c05Out) {
 		}
 	}
 	out.nontriv = nontriv || c.Mode == "reply-rst" || c.Mode == "refuse"
-	post := c05Snap()
+	post := ep.adjust(c05Snap())
+	if ep.n > 0 {
+		set["stats:epoch-rolled-over-during-tunnel"] = true
+	}
+	if ep.gaugeBad != "" {
+		out.key, out.msg = "gauge:changed-by-epoch-reset", ep.gaugeBad
+		return
+	}
 	if post.sessions != pre.sessions {
 		out.key, out.msg = "gauge:sessions", fmt.Sprintf("sessionsProxying was %d before the tunnel and is %d after Proxy returned", pre.sessions, post.sessions)
 		return
@@ -489,8 +498,13 @@ func c05RunProxy(env *c05ProxyEnv, c c05ProxyCase) (out c05Out) {
 	if sum.BytesUp < int64(res.recvN) || sum.BytesUp > int64(readN) || (graceful && sum.BytesUp != int64(res.recvN)) {
 		fail("stats:tunnel-bytes", fmt.Sprintf("tunnel summary BytesUp=%d, the covert received %d bytes, client.Read returned %d (graceful=%v)", sum.BytesUp, res.recvN, readN, graceful))
 	}
-	if k, m := c05CheckCounts([2]int64{sum.BytesUp, sum.BytesDown}, sum.BytesUp, sum.BytesDown, pre, post); k != "" {
-		fail(k, m)
+	// (with epoch roll-overs the global byte counters are only compared where the download direction
+	// cannot have been adding to them at the moment of a reset: the station's own print-and-reset is
+	// not atomic with respect to running relays either)
+	if ep.n == 0 || (c.Mode == "sink" && replyTotal == 0) {
+		if k, m := c05CheckCounts([2]int64{sum.BytesUp, sum.BytesDown}, sum.BytesUp, sum.BytesDown, pre, post); k != "" {
+			fail(k, m)
+		}
 	}
 	if atomic.LoadInt64(&reg.tunnelCount) != atomic.LoadInt64(&env.reg.tunnelCount)+1 {
 		return c05Out{key: "harness", msg: "tunnel count did not advance"}
@@ -528,6 +542,9 @@ func c05ProxyGen(rt *rapid.T) c05ProxyCase {
 		st := c05Step{N: rapid.SampledFrom(c05ProxySizes).Draw(rt, "size")}
 		if rapid.IntRange(0, 5).Draw(rt, "zero") == 0 {
 			st.N = 0 // a zero-length read without error
+		}
+		if rapid.IntRange(0, 3).Draw(rt, "epoch") == 0 {
+			st.Epoch = true // the statistics epoch rolls over while the tunnel is open
 		}
 		s.Reads = append(s.Reads, st)
 	}
@@ -576,9 +593,9 @@ func c05ProxyGen(rt *rapid.T) c05ProxyCase {
 }
 
 func TestVerif_C05_proxy(t *testing.T) {
-	rec := vh.NewRec("C05", "proxy", "rapid-drawn tunnels through Proxy(): scripted client connection (0-5 upload steps: chunks of 1 B .. 70000 B or, with probability 1/6, a zero-length read without error; optional write fault (also: short with nil error and then (0, nil) from every later Write) / SetDeadline fault / Close error / lingering Close of 15-40 ms; last chunk optionally returned together with EOF or an error) x real loopback TCP covert {sinks the upload until the station closes, replies and closes with FIN, replies and resets with SetLinger(0), refuses the connection} with 0-3 reply writes of 1 B .. 70000 B x registration {without proxy_header flag (2/3), with the flag and an ip:port client address (PROXY line sent first), with the flag and a client RemoteAddr that is not host:port (header cannot be sent, Proxy gives up)}; the session gauge is compared before / after for every outcome; non-trivial = an injected fault other than a plain EOF alone was hit, or the covert reset / refused; distinct by case")
+	rec := vh.NewRec("C05", "proxy", "rapid-drawn tunnels through Proxy(): scripted client connection (0-5 upload steps: chunks of 1 B .. 70000 B or, with probability 1/6, a zero-length read without error; optional write fault (also: short with nil error and then (0, nil) from every later Write) / SetDeadline fault / Close error / lingering Close of 15-40 ms; last chunk optionally returned together with EOF or an error) x real loopback TCP covert {sinks the upload until the station closes, replies and closes with FIN, replies and resets with SetLinger(0), refuses the connection} with 0-3 reply writes of 1 B .. 70000 B x registration {without proxy_header flag (2/3), with the flag and an ip:port client address (PROXY line sent first), with the flag and a client RemoteAddr that is not host:port (header cannot be sent, Proxy gives up)}; the session gauge is compared before / after for every outcome; upload steps with probability 1/4 preceded by a statistics epoch roll-over (ProxyStats.PrintAndReset / Reset, Stats.Reset) while the tunnel is open: the gauge must read (previous value + 1) right before and right after it, and the per-epoch byte counters summed over the epochs must equal the tunnel summary; non-trivial = an injected fault other than a plain EOF alone was hit, or the covert reset / refused; distinct by case")
 	defer rec.Flush()
-	rec.Require("mode:sink", "mode:reply-fin", "mode:reply-rst", "mode:refuse", "up:complete-demanded", "down:complete-demanded", "down-ends-first", "header:ok", "header:bad-remote", "header:send-failed", "close:sync-attributed", "read:data+eof", "read:zero-length", "close:slow", "write:short")
+	rec.Require("mode:sink", "mode:reply-fin", "mode:reply-rst", "mode:refuse", "up:complete-demanded", "down:complete-demanded", "down-ends-first", "stats:epoch-rolled-over-during-tunnel", "header:ok", "header:bad-remote", "header:send-failed", "close:sync-attributed", "read:data+eof", "read:zero-length", "close:slow", "write:short")
 	c05QuietStats(t)
 	env := c05NewProxyEnv(t)
 	if p := vh.ReplayFile(); p != "" {
@@ -597,6 +614,8 @@ func TestVerif_C05_proxy(t *testing.T) {
 		{Mode: "reply-fin", Client: c05Script{Reads: []c05Step{{N: 3000}}, End: "hold"}, Await: 3000, Reply: []int{1, 70000}},
 		{Mode: "reply-rst", Client: c05Script{Reads: []c05Step{{N: 3000}}, End: "hold"}, Await: 3000, Reply: []int{5000}},
 		{Mode: "refuse", Client: c05Script{End: "hold"}},
+		{Mode: "sink", Client: c05Script{Reads: []c05Step{{N: 100, Epoch: true}, {N: 40000}, {N: 7, Epoch: true}, {N: 70000, Epoch: true}}, End: "eof"}},
+		{Mode: "reply-fin", Client: c05Script{Reads: []c05Step{{N: 3000}, {N: 1, Epoch: true}}, End: "hold"}, Await: 3001, Reply: []int{1, 70000}},
 		{Mode: "refuse", Header: "ok", Client: c05Script{End: "hold"}},
 		{Mode: "sink", Header: "ok", Client: c05Script{Reads: []c05Step{{N: 100}, {N: 40000}}, End: "eof"}},
 		{Mode: "reply-fin", Header: "ok", Client: c05Script{Reads: []c05Step{{N: 3000}}, End: "hold"}, Await: 3000, Reply: []int{1, 70000}},
